@@ -182,9 +182,16 @@ CExpr(ts, j) == LET r == CTerm(ts, j) IN CExprTail(ts, r.j, LR(r.e, <<>>))
 CalcStructure(ts) == CExpr(ts, 1).e
 CalcFold(ts) == LET s == CalcStructure(ts) IN NumFold(s, Len(s.tl))
 
-InitCalc == /\ obj \in ExprTrees /\ rec = TRUE /\ i = 0 /\ acc = 0 /\ log = <<>> /\ pc = "print"
-\* print the expression with minimal parentheses
-PrintStep == /\ pc = "print" /\ log' = PrE(obj) /\ pc' = "eval" /\ UNCHANGED <<obj, rec, i, acc>>
+\* every plain tree of 1..MaxOperands operands; the top split is chosen here so that no giant set is built
+InitCalc == /\ \E n \in 1..MaxOperands :
+                 IF n = 1 THEN obj \in TreesN(1)
+                 ELSE \E m \in 1..(n - 1) : \E o \in Ops : \E l \in TreesN(m) : \E r \in TreesN(n - m) : obj = Bin(o, l, r)
+            /\ rec = TRUE /\ i = 0 /\ acc = 0 /\ log = <<>> /\ pc = "print"
+\* print the expression -- as it is, or with one unary minus placed anywhere -- with minimal parentheses
+PrintStep == /\ pc = "print"
+             /\ \E t \in {obj} \cup (IF WithNeg THEN NegVariants(obj) \cup (IF obj.k = "num" THEN {Neg(Neg(obj))} ELSE {}) ELSE {}) :
+                   obj' = t /\ log' = PrE(t)
+             /\ pc' = "eval" /\ UNCHANGED <<rec, i, acc>>
 \* Compiler.ParseExpr of the calculator: match into the % structure and fold it
 EvalStep == /\ pc = "eval" /\ acc' = CalcFold(log) /\ pc' = "done" /\ UNCHANGED <<obj, rec, i, log>>
 NextCalc == PrintStep \/ EvalStep
